@@ -9,6 +9,7 @@ mod c08;
 mod vals;
 mod c09;
 mod c10;
+mod c11;
 mod c12;
 mod c13;
 mod reg;
@@ -38,6 +39,7 @@ fn main() {
         "c08" => c08::main(args),
         "c09" => c09::main(args),
         "c10" => c10::main(args),
+        "c11" => c11::main(args),
         "c12" => c12::main(args),
         "c13" => c13::main(args),
         "c14" => c14::main(args),
